@@ -60,4 +60,42 @@ PROPS["C08"] = dict(
     fuzz=[("FuzzC08", 90)],
 )
 
+PROPS["C09"] = dict(
+    pkg="c09",
+    level="exploration",
+    technique="stateful property-based testing (rapid): generated operation histories, rule per operation over the flattened entry view, invariants after every step",
+    level_text=("Generated histories (1..40, thorough 80 steps) of Append/AppendSignature/Remove/RemoveSignature/BytesExists/SigDataExists/Exists/"
+                "AppendList/AppendDatabase/list-level AppendBytes+RemoveBytes on member lists/encode-decode over a small colliding universe of types "
+                "(X509, SHA256, SHA1, SHA384, unknown GUID), owners and data values (32-byte hashes, 31/33-byte values, DER and PEM certificates of equal "
+                "and different length), starting from empty or from a decoded multi-list stream. After every step: the flattened entry view must relate "
+                "to the previous one by the rule of the operation, return values must match the rule (error iff duplicate / unknown type / wrong size / absent), "
+                "membership queries must equal a lookup in the view, no list holds two equal entries, size fields satisfy the list equations and Bytes() "
+                "is a well-formed stream for the reference codec."),
+    level_note=("Trusts ref/esl and the rules coded in props/c09. Left open by the statement and accepted either way (counted): wrong-size values of hash types other than SHA-256. "
+                "Excluded by construction (counted): AppendList of an entry-less list and list-level removal of the last entry of a member list (both leave an entry-less list with SignatureSize 0)."),
+    rule=("case = start stream + operation list; arguments are drawn from the current entries with probability 0.6 so that duplicates and successful removes are frequent. "
+          "Non-trivial = history with a successful remove after >=2 successful appends, or a PEM append stored as DER, or two list types, or a multi-list start state, or an AppendList/AppendDatabase; "
+          "distinct by SHA-256 of (start, ops)."),
+    assumptions=["ref/esl reference codec", "operation rules of props/c09 state exactly the C09 statement"],
+    quick=dict(checks=20000, shards=4, timeout=600),
+    thorough=dict(checks=100000, shards=16, timeout=3000),
+)
+
+PROPS["C10"] = dict(
+    pkg="c10",
+    level="exploration",
+    technique="property-based testing (rapid): round-trip and differential against a reference descriptor codec with a byte-counting chunked reader; native fuzzing (thorough)",
+    level_text=("Reference-encoded descriptors (any 16 timestamp bytes, certificate data 0..64 KiB with boundary sizes, any type GUID) followed by 0..300 "
+                "payload bytes, and plain WIN_CERTIFICATEs of any type, are decoded through a reader that counts the bytes taken: consumed == 16 + dwLength, "
+                "payload untouched, every field equals the reference decoding, Marshal/Write of the decoded value reproduces the consumed bytes, "
+                "decode(encode(v)) == v; sbvarsign fixtures round-trip. Thorough tier fuzzes the decoders with the same oracle."),
+    level_note="Trusts ref/authvar (validated per run: it splits the sbvarsign fixtures into a descriptor and a payload that the ESL reference accepts).",
+    rule=("case = (timestamp, type GUID, certificate data, payload, WIN_CERTIFICATE type, reader chunk size). Non-trivial = certificate data >= 1 byte and payload >= 1 byte; "
+          "distinct by SHA-256 of the four byte strings."),
+    assumptions=["ref/authvar reference codec"],
+    quick=dict(checks=20000, shards=2, timeout=600),
+    thorough=dict(checks=200000, shards=16, timeout=3000),
+    fuzz=[("FuzzC10", 90)],
+)
+
 NOT_APPLICABLE = _NA()
